@@ -38,6 +38,18 @@ def handle (line : String) : String :=
       s!"c_recv={Bytes.toHex dsc.delivered} s_recv={Bytes.toHex dcs.delivered}"
     | _, _, _, _, _ => "bad-op"
   | "abort" :: _ => "prefix"
+  | ["backlog", bs, _seed] =>
+    -- back-pressure scenario: blocks are relayed, the last one is still pending when the server side fails and the client
+    -- side is to be closed (theorem pending_write_survives_peer_closure: everything read so far is delivered);
+    -- run here on three blocks of the given size
+    match bs.toNat? with
+    | some b =>
+      if b = 0 then "bad-op" else
+      let src : Bytes := List.replicate (3 * b) 0
+      let d := run (Dir.init src) ((readsOf [b, b] 65535).flatMap (fun k => [Ev.read k, Ev.writeDone]) ++
+                 (readsOf [b] 65535).flatMap (fun k => [Ev.read k]) ++ [Ev.srcError, Ev.sinkClosed, Ev.writeDone])
+      if d.delivered.length = min (3 * b) (2 * b + min b 65535) ∧ d.lost = false then "delivered=all" else "delivered=short"
+    | none => "bad-op"
   | _ => "bad-op"
 
 end Driver.C06
